@@ -216,7 +216,7 @@ impl World {
 
 impl WorldInner {
     fn ns_of(&self, i: Instant) -> u64 {
-        i.saturating_duration_since(self.base).as_nanos() as u64
+        u64::try_from(i.saturating_duration_since(self.base).as_nanos()).unwrap_or(u64::MAX)
     }
     fn add_timer(&mut self, deadline: u64, waker: Option<Waker>, harness: bool, oneshot: bool) -> u64 {
         let id = self.next_timer;
